@@ -122,6 +122,8 @@ def run(rep: Report) -> None:
     rep.rule("R07.2i", "inventory: raises of builtin classes in algebra/formatting code reachable from the entries", armed=False)
     rep.rule("R07.3", "the handlers in Quantity.__eq__/__lt__ catch exactly ConversionNotFound and return NotImplemented", floor=2)
     rep.rule("R07.4", "_find_path_recursive is guarded by a per-query visited set (test, add, pass on)", floor=2)
+    rep.rule("R07.7", "_splat puts every factor of the unit on the table (a skipped factor makes impossible conversions succeed)", floor=1)
+    rep.rule("R07.8", "Measurement's comparison methods do not call in_unit/convert outside a ConversionNotFound handler", floor=1)
     rep.rule("R07.6", "every cycle of the reachable call graph contains a function whose recursion is bounded for a stated reason (visited set, "
              "one-step conversion, caught formatting error): no unbounded mutual recursion between operators", floor=3)
     rep.rule("R07.5", "planner zone: no reduce() without initialiser over a possibly empty sequence; no true division by "
@@ -352,6 +354,62 @@ def run(rep: Report) -> None:
                               f"`{ast.unparse(x)[:50]}` is read on every iteration of a loop that can remove the entry {d}[{k}] (it is dropped when its "
                               "list empties), and the only membership test is outside the loop: KeyError escapes from converting/comparing",
                               fi.where(x))
+    # R07.7: every factor of a unit takes part in planning.  A factor that _splat leaves out is never paired, so
+    # "nothing left over" - the planner's success condition - holds vacuously and an impossible conversion succeeds with ratio 1
+    sp = prog.func("conversions._splat")
+
+    def always_adds(stmts: List[ast.stmt]) -> bool:
+        for st in stmts:
+            if isinstance(st, (ast.Continue, ast.Break, ast.Return)):
+                return False
+            if isinstance(st, ast.If):
+                if always_adds(st.body) and (always_adds(st.orelse) if st.orelse else False):
+                    return True
+                if any(isinstance(x, (ast.Continue, ast.Break)) for b in st.body + st.orelse for x in ast.walk(b)):
+                    return False
+                continue
+            if any(isinstance(c, ast.Call) and isinstance(c.func, ast.Attribute) and c.func.attr in ("extend", "append", "add", "update", "setdefault") for c in ast.walk(st)) \
+                    or (isinstance(st, (ast.Assign, ast.AugAssign)) and any(isinstance(t, ast.Subscript) for t in (st.targets if isinstance(st, ast.Assign) else [st.target]))):
+                return True
+        return False
+    loops = [n for n in ast.walk(sp.node) if isinstance(n, ast.For) and "factors" in ast.unparse(n.iter)]
+    comps = [n for n in ast.walk(sp.node) if isinstance(n, (ast.DictComp, ast.ListComp, ast.GeneratorExp)) and any("factors" in ast.unparse(g.iter) for g in n.generators)]
+    if not loops and not comps:
+        raise AnalysisError("conversions._splat: no iteration over the unit's factors found (R07.7 anchor moved)")
+    for lp in loops:
+        rep.check("R07.7", "conversions._splat:every-factor", always_adds(lp.body),
+                  "conversions._splat skips some factor of the unit (a path through its loop adds nothing): that factor is never paired, the planner sees "
+                  "nothing left over, and a conversion that should fail with ConversionNotFound succeeds with ratio 1 (90 deg -> 90 one)", sp.where(lp))
+    for c in comps:
+        rep.check("R07.7", "conversions._splat:every-factor", not any(g.ifs for g in c.generators),
+                  "conversions._splat filters the unit's factors: a skipped factor is never paired and impossible conversions succeed", sp.where(c))
+    # R07.8: Measurement's comparisons convert through Quantity's comparison operators (which turn an impossible conversion into
+    # NotImplemented); a direct in_unit()/convert() there lets ConversionNotFound out of <, <=, >, >=, sorted()
+    mcls = prog.cls("Measurement")
+    todo = [mcls.methods[d] for d in ("__eq__", "__lt__", "__le__", "__gt__", "__ge__") if d in mcls.methods]
+    seen_m: Set[str] = set()
+    n8 = 0
+    while todo:
+        q8 = todo.pop()
+        if q8 in seen_m or q8 not in prog.functions:
+            continue
+        seen_m.add(q8)
+        f8 = prog.functions[q8]
+        n8 += 1
+        for c in ast.walk(f8.node):
+            if isinstance(c, ast.Call) and isinstance(c.func, ast.Attribute):
+                if c.func.attr in ("in_unit", "convert"):
+                    guarded = any("ConversionNotFound" in names or "Exception" in names or "ValueError" in names for names in handlers_around(f8, c))
+                    rep.check("R07.8", f"{q8}:{ast.unparse(c)[:40]}", guarded,
+                              f"`{ast.unparse(c)[:50]}` in {q8} converts outside any handler for ConversionNotFound: ordering a Measurement against a same-dimension "
+                              "quantity that cannot be converted raises ConversionNotFound instead of TypeError", f8.where(c))
+                # helpers of the class
+                if isinstance(c.func.value, ast.Name) and c.func.value.id in ("self", f8.params()[0] if f8.params() else "self") and c.func.attr in mcls.methods:
+                    todo.append(mcls.methods[c.func.attr])
+    if n8 < 5:
+        raise AnalysisError("Measurement comparison methods not found (R07.8 anchor moved)")
+    if not any(r_.rid == "R07.8" and r_.instances for r_ in rep.rules.values()):
+        rep.ok("R07.8", "Measurement", note="no direct conversion in Measurement's comparison methods")
     # mypy diagnostics in the planner zone
     zone_files = {"conversions.py"}
     errs = [e for e in getattr(prog, "mypy_errors", []) if any(f"/{z}:" in e or e.startswith(f"src/measured/{z}:") for z in zone_files)]
